@@ -1,0 +1,205 @@
+//go:build verif
+
+package fasthttp
+
+import (
+	"io"
+	"io/fs"
+	"time"
+)
+
+// Thin wrappers for the C25 (FS file-handle bookkeeping) verification harness under /verif.
+// Compiled only with -tags verif; they add no behaviour: every method calls the unexported code once and
+// reports what it returned or what the fields hold.
+
+// VerifFSCache drives a cache manager, the fsFile objects and their readers single-threaded.
+type VerifFSCache struct {
+	h       *fsHandler
+	cm      *inMemoryCacheManager // nil with skipCache
+	files   []*fsFile
+	readers []io.Reader
+}
+
+// VerifNewFSCache builds an fsHandler over fsys (nil = the OS file system) with an inMemoryCacheManager whose
+// cleaner goroutine is NOT started (the harness calls Clean itself), or the noopCacheManager when skipCache is set.
+func VerifNewFSCache(fsys fs.FS, skipCache bool, cacheDuration time.Duration) *VerifFSCache {
+	h := &fsHandler{filesystem: fsys, compressedFileSuffixes: FSCompressedFileSuffixes}
+	if fsys == nil {
+		h.filesystem = &osFS{}
+	}
+	c := &VerifFSCache{h: h}
+	if skipCache {
+		h.cacheManager = &noopCacheManager{}
+	} else {
+		c.cm = &inMemoryCacheManager{
+			cacheDuration: cacheDuration,
+			cache:         make(map[string]*fsFile),
+			cacheBrotli:   make(map[string]*fsFile),
+			cacheGzip:     make(map[string]*fsFile),
+			cacheZstd:     make(map[string]*fsFile),
+			cleanStop:     make(chan struct{}),
+		}
+		h.cacheManager = c.cm
+	}
+	return c
+}
+
+func (c *VerifFSCache) id(ff *fsFile) int {
+	for i, f := range c.files {
+		if f == ff {
+			return i
+		}
+	}
+	c.files = append(c.files, ff)
+	return len(c.files) - 1
+}
+
+// Open runs fsHandler.openFSFile(filePath, false, "").
+func (c *VerifFSCache) Open(filePath string) (id int, err error) {
+	ff, err := c.h.openFSFile(filePath, false, "")
+	if err != nil {
+		return -1, err
+	}
+	return c.id(ff), nil
+}
+
+// NewFile runs fsHandler.newFSFile on an already opened file (name decides whether the content is sniffed).
+func (c *VerifFSCache) NewFile(f fs.File, filePath string) (id int, err error) {
+	fi, err := f.Stat()
+	if err != nil {
+		return -1, err
+	}
+	ff, err := c.h.newFSFile(f, fi, false, filePath, "")
+	if err != nil {
+		return -1, err
+	}
+	return c.id(ff), nil
+}
+
+// Get runs GetFileFromCache.
+func (c *VerifFSCache) Get(kind int, path string) (id int, ok bool) {
+	ff, ok := c.h.cacheManager.GetFileFromCache(CacheKind(kind), []byte(path))
+	if !ok {
+		return -1, false
+	}
+	return c.id(ff), true
+}
+
+// Set runs SetFileToCache and returns the id of the file the caller must use.
+func (c *VerifFSCache) Set(kind int, path string, id int) int {
+	return c.id(c.h.cacheManager.SetFileToCache(CacheKind(kind), []byte(path), c.files[id]))
+}
+
+// Dec runs fsFile.decReadersCount; panicked reports its "readersCount < 0" panic.
+func (c *VerifFSCache) Dec(id int) (panicked bool) {
+	defer func() {
+		if recover() != nil {
+			panicked = true
+		}
+	}()
+	c.files[id].decReadersCount()
+	return false
+}
+
+// NewReader runs fsFile.NewReader.
+func (c *VerifFSCache) NewReader(id int) (rid int, err error) {
+	r, err := c.files[id].NewReader()
+	if err != nil {
+		return -1, err
+	}
+	c.readers = append(c.readers, r)
+	return len(c.readers) - 1, nil
+}
+
+// ReaderFile returns the private file of a big-file reader (nil for a small-file reader).
+func (c *VerifFSCache) ReaderFile(rid int) fs.File {
+	if r, ok := c.readers[rid].(*bigFileReader); ok {
+		return r.f
+	}
+	return nil
+}
+
+// Read reads up to n bytes from the reader.
+func (c *VerifFSCache) Read(rid, n int) (int, error) {
+	return c.readers[rid].Read(make([]byte, n))
+}
+
+// CloseReader closes the reader; panicked reports a panic of the decrement.
+func (c *VerifFSCache) CloseReader(rid int) (err error, panicked bool) {
+	defer func() {
+		if recover() != nil {
+			panicked = true
+		}
+	}()
+	return c.readers[rid].(io.Closer).Close(), false
+}
+
+// Expire makes the file look older than any cache duration.
+func (c *VerifFSCache) Expire(id int) { c.files[id].t = time.Time{} }
+
+// Clean does what one tick of handleCleanCache does.
+func (c *VerifFSCache) Clean() {
+	if c.cm == nil {
+		return
+	}
+	for _, ff := range c.cm.cleanCache() {
+		ff.Release()
+	}
+}
+
+// Close runs cacheManager.Close.
+func (c *VerifFSCache) Close() { c.h.cacheManager.Close() }
+
+// Readers returns fsFile.readersCount.
+func (c *VerifFSCache) Readers(id int) int {
+	c.h.cacheManager.Lock()
+	defer c.h.cacheManager.Unlock()
+	return c.files[id].readersCount
+}
+
+// PoolLen returns len(fsFile.bigFiles).
+func (c *VerifFSCache) PoolLen(id int) int {
+	ff := c.files[id]
+	ff.bigFilesLock.Lock()
+	defer ff.bigFilesLock.Unlock()
+	return len(ff.bigFiles)
+}
+
+// IsBig returns fsFile.isBig().
+func (c *VerifFSCache) IsBig(id int) bool { return c.files[id].isBig() }
+
+// File returns fsFile.f.
+func (c *VerifFSCache) File(id int) fs.File { return c.files[id].f }
+
+// Where reports where the manager holds the file: "cached <kind> <path>", "pending" or "none".
+func (c *VerifFSCache) Where(id int) (where string, kind int, path string) {
+	if c.cm == nil {
+		return "none", 0, ""
+	}
+	ff := c.files[id]
+	c.cm.cacheLock.Lock()
+	defer c.cm.cacheLock.Unlock()
+	for k := 0; k < 4; k++ {
+		for p, f := range c.cm.getFsCache(CacheKind(k)) {
+			if f == ff {
+				return "cached", k, p
+			}
+		}
+	}
+	for _, f := range c.cm.pendingFiles {
+		if f == ff {
+			return "pending", 0, ""
+		}
+	}
+	return "none", 0, ""
+}
+
+// Closed returns inMemoryCacheManager.closed (true for the noop manager, which never caches).
+func (c *VerifFSCache) Closed() bool {
+	if c.cm == nil {
+		return true
+	}
+	c.cm.cacheLock.Lock()
+	defer c.cm.cacheLock.Unlock()
+	return c.cm.closed
+}
